@@ -109,6 +109,10 @@ def binImgs(data, n):
     
     n = int(numpy.round(n))
 
+    # accumulate in the type numpy.sum uses for this data (platform integer for small integers and
+    # booleans), so that block sums of uint8 / uint16 images cannot wrap around
+    data = data.astype(numpy.zeros(1, dtype=data.dtype).sum().dtype, copy=False)
+
     if len(data.shape)==2:
         shape[-1]/=n
         binnedImgTmp = numpy.zeros( shape, dtype=data.dtype )
